@@ -309,6 +309,12 @@ def _gen_imh(rng, cls):
     if cls == "imh_given":
         case["initial"] = rng.randrange(nom)
         case["initial_leading1"] = rng.random() < 0.5
+        if fam != "srswor" and rng.random() < 0.5:
+            # a long-lived estimator: the distribution's parameters are updated in place (an optimiser step) between
+            # the estimator's construction and its call; proposal and target are one object, so they still coincide
+            case["params_updated_in_place"] = True
+            case["density"] = "same_object"
+            case["uniforms"] = "hostile_high"
     else:
         case["initial"] = None
         case["tries"] = rng.choice([1, 2, 1000])
@@ -860,6 +866,17 @@ def _exec_imh(case, mon):
         ename = "IndependentMetropolisHastingsEstimator(drawn start)"
     e = mon.lib(ename, E.IndependentMetropolisHastingsEstimator, prop, func, mc, density, burn, is_log=is_log,
                 **kwargs)
+    if case.get("params_updated_in_place"):
+        with torch.no_grad():
+            for d in (prop, getattr(prop, "base_dist", None)):
+                for nm in ("logits", "probs"):
+                    t = getattr(d, "__dict__", {}).get(nm)
+                    if torch.is_tensor(t):
+                        if nm == "logits":
+                            t.neg_()
+                        else:
+                            t.neg_().add_(1)
+        mon.cls("imh_params_updated_in_place_before_the_call")
     if case["uniforms"] == "natural":
         torch.manual_seed(case["seed"])
         r = mon.lib("IndependentMetropolisHastingsEstimator.__call__", e)
